@@ -1,15 +1,21 @@
+//! Checks on p2panda-sync protocols: log sync (C19, C20, C21) and topic handshake (C25).
 use explorer::{Args, Report};
+
+mod c19;
+mod fixtures;
+mod par;
+mod replica;
+mod session;
 
 fn main() {
     let args = Args::parse();
     explorer::quiet_panics();
     let code = match args.property.as_str() {
-        // "Cxx" => cxx::run(Report::new(&args, "model_checking")),
+        "C19" => c19::run(Report::new(&args, "model_checking")),
         other => {
             eprintln!("vh-sync: unknown property {other}");
             2
         }
     };
-    let _ = Report::new(&args, "model_checking");
     std::process::exit(code);
 }
